@@ -247,7 +247,24 @@ def sc_foreign(V, driver="Canonical"):
         V.prove(not mon.hits, "no-foreign-entropy-consumed", info=info + ":" + ";".join(mon.hits[:3]))
         V.prove(len(E().draws) > 0, "own-generator-used", info=info)
         return
-    # replay: same seed, different states of the global generators -> identical trajectories
+    # replay (1): the monitor on the real, unpatched code -- any direct call into a foreign entropy
+    # source from quansino source during real steps
+    mon = Foreign(_src_prefix())
+    Vm = symx.Replay({"symbols": dict(V.sym), "draws": []})
+    simm, atomsm = _build(Vm, driver, 7)
+    if not driver.endswith("ForceBias"):
+        from ase.calculators.lj import LennardJones
+
+        atomsm.calc = LennardJones()
+    mon.install()
+    try:
+        simm.run(3)
+    finally:
+        mon.remove()
+    if mon.hits:
+        V.prove(False, "no-foreign-entropy-consumed", info=info + ":" + mon.hits[0])
+        return
+    # replay (2): same seed, different states of the global generators -> identical trajectories
     outs = []
     for g in (1, 2):
         np.random.seed(g)
